@@ -1065,14 +1065,39 @@ def _flatten_private_bases(trees: Dict[str, ast.Module]) -> int:
                 if b_members is None:
                     continue
                 ok = True
+                b_init = b_members.get("__init__")
+                init_sites = {}  # subclass -> the statement `super().__init__()` in its own __init__
                 for c in subs:
+                    c_init = next((f for f in c.body if isinstance(f, ast.FunctionDef) and f.name == "__init__"), None)
                     for x in ast.walk(c):
                         # super().m(..) / super(C, self).m(..) with m defined by the base
                         if isinstance(x, ast.Attribute) and isinstance(x.value, ast.Call) and isinstance(x.value.func, ast.Name) and x.value.func.id == "super" and x.attr in b_members:
-                            ok = False
+                            site = None
+                            if x.attr == "__init__" and c_init is not None and isinstance(b_init, ast.FunctionDef) and len(b_init.args.args) == 1 and not (b_init.args.vararg or b_init.args.kwarg or b_init.args.kwonlyargs):
+                                # super().__init__() as a statement of C.__init__, the base's __init__ taking nothing: its
+                                # statements run there
+                                site = next((st for st in c_init.body if isinstance(st, ast.Expr) and isinstance(st.value, ast.Call) and st.value.func is x and not st.value.args and not st.value.keywords), None)
+                            if site is None or c.name in init_sites:
+                                ok = False
+                            else:
+                                init_sites[c.name] = (c_init, site)
                 if not ok:
                     continue
                 for c in subs:
+                    if c.name in init_sites:
+                        c_init, site = init_sites[c.name]
+                        bsp, csp = b_init.args.args[0].arg, c_init.args.args[0].arg
+                        spliced = []
+                        for st in b_init.body:
+                            if isinstance(st, ast.Expr) and isinstance(st.value, ast.Constant):
+                                continue
+                            st2 = _copy.deepcopy(st)
+                            for n_ in ast.walk(st2):
+                                if isinstance(n_, ast.Name) and n_.id == bsp:
+                                    n_.id = csp
+                            spliced.append(st2)
+                        i_ = c_init.body.index(site)
+                        c_init.body[i_:i_ + 1] = spliced or [ast.Pass()]
                     own = {st.name for st in c.body if isinstance(st, (ast.FunctionDef, ast.AsyncFunctionDef))} | {st.targets[0].id for st in c.body if isinstance(st, ast.Assign) and len(st.targets) == 1 and isinstance(st.targets[0], ast.Name)}
                     add = [_copy.deepcopy(st) for nm, st in b_members.items() if nm not in own]
                     c.body = list(c.body) + add
